@@ -79,7 +79,8 @@ func (g *gateT) Write(p []byte) (int, error) {
 
 func (c10) Exec(c Case) []string {
 	st := newStub(nil)
-	cfg := &xmpp.Config{Jid: "u@localhost/r", Credential: xmpp.Password("p"), StreamManagementEnable: true}
+	cfg := &xmpp.Config{Jid: "test@localhost/res", Credential: xmpp.Password("secret"), StreamManagementEnable: true, Insecure: true}
+	xmpp.VerifSetSMResume(cfg, true)
 	router := xmpp.NewRouter()
 	client, err := newStubClient(cfg, router, nil, st)
 	if err != nil {
@@ -170,6 +171,31 @@ func (c10) Exec(c Case) []string {
 			default:
 				client.Send(p)
 			}
+		case "newsession":
+			// the connection is lost and the client reconnects: the REAL Client.connect negotiates against a scripted
+			// server that answers <resume/> as the op says (same: <resumed/> with the id; failed / otherid: refusal,
+			// after which the session is bound and stream management enabled anew). Afterwards the senders go on over
+			// the recording transport.
+			xt := xmpp.NewClientTransport(xmpp.TransportConfiguration{Address: "127.0.0.1:1", Domain: "localhost"}).(*xmpp.XMPPTransport)
+			xmpp.VerifSetTransport(client, xt)
+			xmpp.VerifSessionTransport(client.Session, xt)
+			cfg.StreamManagementEnable = true
+			res := negProp{}.oneConn(client, cfg, xt, happy(false, false, true).with("res", op[1], "smid", hx("sm-next")), 0)
+			if op[1] == "otherid" && strings.HasPrefix(res, "out=failed") {
+				// a <resumed/> that confirms another id ends that connection attempt with an error (and drops the
+				// state); the application connects again and gets a new session
+				xmpp.VerifSessionTransport(client.Session, xt)
+				cfg.StreamManagementEnable = true
+				res = negProp{}.oneConn(client, cfg, xt, happy(false, false, true).with("smid", hx("sm-next2")), 0)
+			}
+			xmpp.VerifSetTransport(client, gate)
+			if client.Session != nil {
+				xmpp.VerifSessionTransport(client.Session, gate)
+			}
+			if !strings.HasPrefix(res, "out=established") || client.Session == nil {
+				obs = append(obs, "newsession:"+res)
+				continue
+			}
 		case "ack":
 			h, _ := strconv.Atoi(op[1])
 			xmpp.VerifRoute(router, client, stanza.SMAnswer{H: uint(h)})
@@ -251,6 +277,17 @@ func (c10) Generate(rng *rand.Rand, tier string, st *Stats) []Case {
 		cs := "<message to='a@b'><composing xmlns='http://jabber.org/protocol/chatstates'/></message>"
 		mk("corpus-identical-stanzas", [][]string{{"sendraw", hx(cs)}, {"sendraw", hx(cs)}, c10op("message", "body"), {"ack", "1"}, {"sendraw", hx(cs)}, {"sendraw", hx(cs)}, {"ack", "3"}, {"ack", "5"}})
 		mk("corpus-identical-stanzas-2", [][]string{c10op("presence", "p"), c10op("presence", "p"), c10op("presence", "p"), {"ack", "2"}, {"ack", "3"}})
+	}
+	// a reconnection in the middle of a history (the real Client.connect against a scripted server): after a CONFIRMED
+	// resumption the held stanzas and their numbers go on; after a REFUSED one (<failed/>, another id) the session that
+	// is enabled anew starts empty and numbers from 1 - an <a h='1'/> of the new session acknowledges its first stanza,
+	// nothing of the old session is transmitted on it
+	for _, kind := range []string{"same", "failed", "otherid"} {
+		mk("corpus-reconnect-"+kind, [][]string{{"sendraw", hx("<old1/>")}, {"sendraw", hx("<old2/>")}, {"sendraw", hx("<old3/>")}, {"ack", "1"},
+			{"newsession", kind}, {"sendraw", hx("<new1/>")}, {"ack", "1"}, {"sendraw", hx("<new2/>")}, {"ack", "2"}, {"ack", "4"}, {"ack", "5"}})
+		mk("corpus-reconnect-empty-"+kind, [][]string{{"sendraw", hx("<old1/>")}, {"ack", "1"}, {"newsession", kind}, c10op("message", "n1"), {"ack", "0"}, {"ack", "1"}, {"ack", "2"}})
+		mk("corpus-reconnect-twice-"+kind, [][]string{c10op("message", "o1"), {"newsession", kind}, c10op("message", "o2"), {"newsession", "same"}, {"ack", "1"}, {"newsession", kind}, {"sendraw", hx("<z/>")}, {"ack", "1"}})
+		st.Inc("reconnect_" + kind)
 	}
 	// bounded-exhaustive: all histories of length <= L over a small alphabet
 	uniq := 0
